@@ -2,46 +2,49 @@ package main
 
 import (
 	"go/ast"
+	"go/printer"
 	"go/token"
 	"path/filepath"
 	"sort"
 	"strings"
 )
 
-// processWideState lists the package-level variables of the engine's packages that hold MUTABLE state: everything except values that
-// cannot change after initialisation (compiled regular expressions, replacers, error values, basic literals, interface assertions `var _ T`).
-// A cache, pool or table added at package level is shared by every engine and every goroutine of the process; each listed variable is
-// covered by a theorem (pool, lockset) or by the concurrency oracle.
-func immutableInit(e ast.Expr) bool {
-	switch x := e.(type) {
-	case *ast.BasicLit:
-		return true
-	case *ast.CallExpr:
-		switch exprString(x.Fun) {
-		case "regexp.MustCompile", "regexp.MustCompilePOSIX", "strings.NewReplacer", "errors.New", "fmt.Errorf", "template.Must":
-			return true
-		}
-	case *ast.Ident:
-		return x.Name == "true" || x.Name == "false" || x.Name == "nil"
-	}
-	return false
+// processWideState lists the package-level variables of the engine's packages that hold state which is CHANGED after initialisation:
+// a variable some function other than `init` assigns to (the variable itself, an element, a field, through `&x`, `delete`, `++`), or a
+// variable of a synchronisation type (sync.Pool, sync.Map, sync.Once, a struct holding a mutex …) some function calls a method on.
+// Tables and values that are only read (lookup maps, compiled regular expressions, byte-slice constants, reflect types) are not state.
+// Such a variable is shared by every engine and every goroutine of the process; each listed one is covered by a theorem (pool, lockset)
+// or by the concurrency oracle.
+
+type pkgVar struct {
+	name string
+	spec *ast.ValueSpec
+	sync bool // its type or initialiser mentions sync. / atomic.
 }
 
-func immutableType(e ast.Expr) bool {
-	switch x := e.(type) {
-	case *ast.Ident:
-		switch x.Name {
-		case "string", "bool", "int", "int8", "int16", "int32", "int64", "uint", "uint8", "uint16", "uint32", "uint64", "float32", "float64", "error", "rune", "byte":
-			return false // a package-level scalar variable can still be assigned: it counts, unless it has an immutable initialiser (checked by the caller)
+func rootIdent(e ast.Expr) *ast.Ident {
+	for {
+		switch x := e.(type) {
+		case *ast.Ident:
+			return x
+		case *ast.SelectorExpr:
+			e = x.X
+		case *ast.IndexExpr:
+			e = x.X
+		case *ast.StarExpr:
+			e = x.X
+		case *ast.ParenExpr:
+			e = x.X
+		case *ast.SliceExpr:
+			e = x.X
+		default:
+			return nil
 		}
-	case *ast.SelectorExpr:
-		return exprString(x) == "embed.FS"
 	}
-	return false
 }
 
 func packageState(p *pkgFiles, pkg string) []string {
-	var out []string
+	vars := map[string]*pkgVar{}
 	names := make([]string, 0, len(p.files))
 	for n := range p.files {
 		names = append(names, n)
@@ -55,21 +58,85 @@ func packageState(p *pkgFiles, pkg string) []string {
 			}
 			for _, sp := range gd.Specs {
 				vs := sp.(*ast.ValueSpec)
-				for i, id := range vs.Names {
-					if id.Name == "_" {
-						continue
+				var tb strings.Builder
+				if vs.Type != nil {
+					printer.Fprint(&tb, p.fset, vs.Type)
+				}
+				for _, v := range vs.Values {
+					tb.WriteString(" ")
+					printer.Fprint(&tb, p.fset, v)
+				}
+				txt := tb.String()
+				for _, id := range vs.Names {
+					if id.Name != "_" {
+						vars[id.Name] = &pkgVar{name: id.Name, spec: vs, sync: strings.Contains(txt, "sync.") || strings.Contains(txt, "atomic.")}
 					}
-					if vs.Type != nil && immutableType(vs.Type) {
-						continue
-					}
-					if i < len(vs.Values) && immutableInit(vs.Values[i]) {
-						continue
-					}
-					out = append(out, pkg+"."+id.Name)
 				}
 			}
 		}
 	}
+	// is this identifier a reference to the package-level variable (not a local of the same name)?
+	isVar := func(id *ast.Ident) *pkgVar {
+		if id == nil {
+			return nil
+		}
+		v, ok := vars[id.Name]
+		if !ok {
+			return nil
+		}
+		if id.Obj != nil && id.Obj.Decl != nil {
+			if vs, ok := id.Obj.Decl.(*ast.ValueSpec); !ok || vs != v.spec {
+				return nil // resolved to something else in this file (a local, a parameter)
+			}
+		}
+		return v
+	}
+	changed := map[string]bool{}
+	mark := func(e ast.Expr) {
+		if v := isVar(rootIdent(e)); v != nil {
+			changed[v.name] = true
+		}
+	}
+	for _, n := range names {
+		for _, d := range p.files[n].Decls {
+			fd, ok := d.(*ast.FuncDecl)
+			if !ok || fd.Body == nil || (fd.Recv == nil && fd.Name.Name == "init") {
+				continue
+			}
+			// parameters and named results shadow package variables of the same name
+			ast.Inspect(fd.Body, func(x ast.Node) bool {
+				switch s := x.(type) {
+				case *ast.AssignStmt:
+					if s.Tok != token.DEFINE {
+						for _, l := range s.Lhs {
+							mark(l)
+						}
+					}
+				case *ast.IncDecStmt:
+					mark(s.X)
+				case *ast.UnaryExpr:
+					if s.Op == token.AND {
+						mark(s.X)
+					}
+				case *ast.CallExpr:
+					if id, ok := s.Fun.(*ast.Ident); ok && (id.Name == "delete" || id.Name == "clear") && len(s.Args) > 0 {
+						mark(s.Args[0])
+					}
+					if sel, ok := s.Fun.(*ast.SelectorExpr); ok {
+						if v := isVar(rootIdent(sel.X)); v != nil && v.sync {
+							changed[v.name] = true
+						}
+					}
+				}
+				return true
+			})
+		}
+	}
+	var out []string
+	for n := range changed {
+		out = append(out, pkg+"."+n)
+	}
+	sort.Strings(out)
 	return out
 }
 
@@ -84,7 +151,7 @@ func genProcessState(repo, out string, root, helpers *pkgFiles) {
 	}
 	sort.Strings(all)
 	var sb strings.Builder
-	sb.WriteString("namespace Vuego.Generated\n\n/-- package-level variables holding mutable state (shared by every engine and goroutine of the process) -/\ndef processWideState : List String := [")
+	sb.WriteString("namespace Vuego.Generated\n\n/-- package-level variables whose state changes after initialisation (shared by every engine and goroutine of the process) -/\ndef processWideState : List String := [")
 	for i, s := range all {
 		if i > 0 {
 			sb.WriteString(", ")
